@@ -40,6 +40,10 @@ for p in props:
     rs = '<br>'.join(r for _, _, r in seeds) or '—'
     out.append(f"| {pid} | {ev} | {', '.join(muts) or '—'} | {sd} | {rs} |")
 out.append('')
+rep = open(f'{root}/REPORTS.md').read() if os.path.exists(f'{root}/REPORTS.md') else ''
+if rep:
+    out.append('## 12. As built: condensed reports per builder (what each monitor observes, mutants, false alarms, defects)\n')
+    out.append(re.sub(r'^# .*\n', '', rep, count=1).replace('\n## ', '\n### '))
 block = '\n'.join(out)
 s = open(f'{root}/DESIGN.md').read()
 B, E = '<!-- GENERATED:BEGIN -->', '<!-- GENERATED:END -->'
